@@ -1,46 +1,194 @@
-// Package c17 monitors the transform algebra (placeholder used to test the framework).
+// Package c17 monitors property C17: the transform types obey their algebra
+// (quaternion, 4x4 matrix, TRS, mesh-level transforms, AABB).
+//
+// The oracle is the set of laws themselves, evaluated against reference
+// arithmetic written on plain arrays (ref.go) with magnitude-proportional
+// tolerances; the (bi)linear matrix operations are additionally decided
+// exhaustively on basis matrices in exact 0/1 (small-integer / power-of-two)
+// arithmetic.
 package c17
 
 import (
 	"fmt"
 	"math"
+	"math/rand"
 
 	"github.com/EliCDavis/polyform/math/quaternion"
-	"github.com/EliCDavis/vector/vector3"
 	"polyverif/internal/run"
 )
 
-func Spec() *run.Spec {
-	return &run.Spec{
-		ID: "C17", Level: "exploration", Rule: "placeholder",
-		Phases: []run.Phase{{Name: "laws", Cases: func(t string) int { return 200 }, Run: laws, Batch: 20}},
+func tiered(quick, thorough int) func(string) int {
+	return func(t string) int {
+		if t == "thorough" {
+			return thorough
+		}
+		return quick
 	}
 }
 
-func laws(c *run.Ctx) run.Result {
-	var res run.Result
-	r := c.Rng
-	q := quaternion.FromTheta(r.Float64()*7, vector3.New(r.NormFloat64(), r.NormFloat64(), r.NormFloat64()).Normalized())
-	v := vector3.New(r.NormFloat64(), r.NormFloat64(), r.NormFloat64())
-	if math.Abs(q.Rotate(v).Length()-v.Length()) > 1e-9 {
-		res.Violate("length", "quaternion.Rotate", "", fmt.Sprint(q, v), nil)
+func Spec() *run.Spec {
+	return &run.Spec{
+		ID: "C17", Level: "exploration",
+		Rule: "tables: every pair of the 16 basis matrices (several coefficient pairs) for Add and Multiply, 12 affine basis matrices x 6 vectors for MulPosition, " +
+			"all 256 row-basis matrices for Determinant, all 24 permutation matrices x power-of-two scalings for Inverse, compared exactly. " +
+			"Random phases: one case = one generated instance (quaternions/vectors, matrix triple, TRS triple, mesh + transform chain, box + encapsulation history); " +
+			"non-trivial = the instance exercises the law away from its fixed points (rotation angle not ~0 and vector not on the axis; dense matrix with the inverse law evaluated; " +
+			"TRS with non-identity rotation, non-uniform scale and non-zero translation; mesh with vertices; box history in which at least one step grew the box). " +
+			"Signature = generator kinds x magnitude decades x structural flags.",
+		Assumptions: []string{
+			"inputs are finite; quaternions used as rotations are unit (built by FromTheta, Normalize, RotationTo or Identity); RotationTo is given unit vectors",
+			"inside RotationTo's snap band |from.to| > 1-1e-6 (inherited from gl-matrix) the result is only required to be as close to the target as the snapped (anti)parallel direction, i.e. within sqrt(2e-6) ~ 1.4e-3; outside the band the tolerance is 1e-9",
+			"inverse laws are evaluated for matrices whose determinant is not lost to cancellation (sum of |terms| / |det| <= 1e6), with an a-posteriori rounding bound of the cofactor formula times 64 as tolerance",
+			"AABB containment is judged with a slack of a few ulps of the largest coordinate involved per encapsulation step (the box is stored as centre/extents, so min/max are re-derived with rounding)",
+			"MulPosition is checked on affine matrices (bottom row 0,0,0,1)",
+		},
+		MinNontrivial: map[string]int{"quick": 500, "thorough": 1000},
+		MinObserved: map[string]int64{
+			"add_basis_pairs":      256,
+			"mul_basis_pairs":      256,
+			"det_row_basis":        256,
+			"inverse_permutations": 24,
+			"rotto_exact_antiparallel": 6,
+			"rotto_snap_band":      50,
+			"inverse_law_checked":  500,
+			"mesh_positions":       1000,
+			"aabb_grow_steps":      1000,
+		},
+		Phases: []run.Phase{
+			{Name: "tables", Cases: func(string) int { return nTables }, Run: tables, Batch: 2},
+			{Name: "rotation-to", Cases: tiered(1500, 20000), Run: rotationTo, Batch: 250},
+			{Name: "quat", Cases: tiered(10000, 120000), Run: quatCase, Batch: 1000},
+			{Name: "matrix", Cases: tiered(10000, 120000), Run: matrixCase, Batch: 1000},
+			{Name: "trs", Cases: tiered(8000, 80000), Run: trsCase, Batch: 1000},
+			{Name: "mesh", Cases: tiered(4000, 50000), Run: meshCase, Batch: 500},
+			{Name: "aabb", Cases: tiered(8000, 80000), Run: aabbCase, Batch: 1000},
+		},
 	}
-	if c.Case == 7 && c.Tier == "thorough" {
-		var a []int
-		_ = a[c.Case]
-	}
-	if c.Case == 9 && c.Tier == "thorough" {
-		for {
+}
+
+// ---------------------------------------------------------------------------
+// shared generators
+
+func randUnit(r *rand.Rand) v3 {
+	for {
+		v := v3{r.NormFloat64(), r.NormFloat64(), r.NormFloat64()}
+		if n := vnorm(v); n > 1e-3 {
+			return vunit(v)
 		}
 	}
-	if c.Case == 11 && c.Tier == "thorough" {
-		m := map[int]int{}
-		go func() { for { m[1]++ } }()
-		for { m[2]++ }
+}
+
+// perpUnit returns a unit vector orthogonal to the unit vector a.
+func perpUnit(r *rand.Rand, a v3) v3 {
+	for {
+		u := randUnit(r)
+		p := vsub(u, vscale(a, vdot(u, a)))
+		if vnorm(p) > 0.1 {
+			return vunit(p)
+		}
 	}
-	res.Nontrivial = true
-	res.Sig = fmt.Sprint(c.Case % 10)
-	res.Sample = map[string]any{"q": q.ToArr(), "v": v.ToArr()}
-	res.Count("laws", 1)
-	return res
+}
+
+func pow10(k int) float64 { return math.Pow(10, float64(k)) }
+
+// genVec draws a vector; kind tells how.
+func genVec(r *rand.Rand, loDec, hiDec int) (v3, string) {
+	s := pow10(loDec+r.Intn(hiDec-loDec+1)) * (1 + 9*r.Float64())
+	switch r.Intn(10) {
+	case 0: // along a coordinate axis
+		var v v3
+		v[r.Intn(3)] = s * float64(1-2*r.Intn(2))
+		return v, "axis"
+	case 1: // in a coordinate plane
+		u := randUnit(r)
+		u[r.Intn(3)] = 0
+		if vnorm(u) < 1e-3 {
+			u = v3{1, 1, 0}
+		}
+		return vscale(vunit(u), s), "plane"
+	case 2: // small integers
+		return v3{float64(r.Intn(9) - 4), float64(r.Intn(9) - 4), float64(1 + r.Intn(4))}, "int"
+	case 3: // components of very different magnitude
+		return v3{s * r.NormFloat64(), s * 1e-6 * r.NormFloat64(), s * 1e3 * r.NormFloat64()}, "skew"
+	}
+	return vscale(randUnit(r), s), "generic"
+}
+
+type gQuat struct {
+	q     quaternion.Quaternion
+	kind  string
+	axis  v3      // unit axis (kind theta)
+	theta float64 // (kind theta)
+}
+
+var specialAngles = []float64{0, math.Pi / 2, math.Pi, -math.Pi, 2 * math.Pi, -math.Pi / 2, 1e-8, math.Pi - 1e-8, math.Pi / 3, 3 * math.Pi}
+
+// genQuat builds a unit quaternion through one of polyform's constructors.
+func genQuat(r *rand.Rand) gQuat {
+	switch k := r.Intn(20); {
+	case k < 11:
+		axis := randUnit(r)
+		kind := "theta"
+		switch r.Intn(6) {
+		case 0:
+			axis = v3{}
+			axis[r.Intn(3)] = float64(1 - 2*r.Intn(2))
+			kind = "theta-axis"
+		}
+		theta := (r.Float64()*2 - 1) * 4 * math.Pi
+		if r.Intn(5) == 0 {
+			theta = specialAngles[r.Intn(len(specialAngles))]
+			kind += "-special"
+		}
+		// the axis handed over is deliberately not unit: FromTheta normalises
+		sc := 1.
+		if r.Intn(3) > 0 {
+			sc = pow10(r.Intn(7)-3) * (1 + r.Float64())
+			kind += "-nonunit"
+		}
+		return gQuat{q: quaternion.FromTheta(theta, vscale(axis, sc).vec()), kind: kind, axis: axis, theta: theta}
+	case k < 15:
+		var c q4
+		for {
+			c = q4{r.NormFloat64(), r.NormFloat64(), r.NormFloat64(), r.NormFloat64()}
+			if qnorm(c) > 1e-2 {
+				break
+			}
+		}
+		sc := pow10(r.Intn(7) - 3)
+		return gQuat{q: quaternion.New(v3{c[0] * sc, c[1] * sc, c[2] * sc}.vec(), c[3]*sc).Normalize(), kind: "normalized"}
+	case k < 19:
+		return gQuat{q: quaternion.RotationTo(randUnit(r).vec(), randUnit(r).vec()), kind: "rotationTo"}
+	}
+	return gQuat{q: quaternion.Identity(), kind: "identity"}
+}
+
+func qOf(q quaternion.Quaternion) q4 {
+	d := q.Dir()
+	return q4{d.X(), d.Y(), d.Z(), q.W()}
+}
+
+// rotAngle is the rotation angle in [0,pi] encoded by a unit quaternion.
+func rotAngle(q q4) float64 {
+	return 2 * math.Atan2(vnorm(v3{q[0], q[1], q[2]}), math.Abs(q[3]))
+}
+
+func f3(v v3) string { return fmt.Sprintf("(%.17g, %.17g, %.17g)", v[0], v[1], v[2]) }
+func f4(q q4) string { return fmt.Sprintf("(%.17g, %.17g, %.17g; %.17g)", q[0], q[1], q[2], q[3]) }
+
+func fm(m m4) string {
+	s := ""
+	for i := 0; i < 4; i++ {
+		s += fmt.Sprintf("[%.17g %.17g %.17g %.17g]", m[i][0], m[i][1], m[i][2], m[i][3])
+	}
+	return s
+}
+
+// guard runs a polyform call; a panic inside the algebra is a violation of its own.
+func guard(res *run.Result, site string, f func()) bool {
+	if p := run.Try(f); p != nil {
+		res.Violate("runtime-panic", site, "", p.Value+" at "+p.Site, nil)
+		return false
+	}
+	return true
 }
